@@ -12,16 +12,6 @@ Local Open Scope string_scope.
    same; V: the same sequence with every add forced to each of the three forms looks the same) *)
 Inductive item := IRes (s : string) | ISnap (sn : snap) (f v : bool).
 
-(* has a PrepareSet succeeded since the last reset (the discipline wf_order tracks) *)
-Fixpoint prep_state (p : bool) (ops : list op) : bool :=
-  match ops with
-  | [] => p
-  | OPrepare SUndefined _ :: r => prep_state p r
-  | OPrepare _ _ :: r => prep_state true r
-  | OReset :: r => prep_state false r
-  | _ :: r => prep_state p r
-  end.
-
 Definition forced_forms : list addform := [FV1; FExtra 3; FV2].
 
 (* [all] / [since]: operations applied so far / since the last reset, newest first *)
